@@ -1,15 +1,102 @@
 /-
   C04 — Solver answers do not depend on the order or history of queries.
-  Property theorems only; helper lemmas live in Gama/Lemmas.
+  Property theorems only; helper lemmas live in Gama/Lemmas (Cache.lean, EnvState.lean, FullState.lean).
+
+  Shape: the solver objects are modelled as state machines *with* their caches, stage
+  counters and dirty flags (Model/EnvState.lean, Model/FullState.lean); every answer is a
+  symbolic term naming the artefacts it was read from; the theorems say that after ANY
+  finite history of API calls the answer equals the answer of a fresh object with the same
+  configuration.  Numeric content of the artefacts is C01/C03's subject.
 -/
 import Gama.Lemmas.Cache
+import Gama.Lemmas.EnvState
 namespace Gama.Props.C04
-open Gama Gama.MTF
+open Gama Gama.MTF Gama.C04
+
+/-! ### the move-to-front cache (`MoveToFront<N,Key,Buffer>`) -/
 
 variable {Key Buf : Type} [DecidableEq Key]
 
 /-- a key is reported `good` exactly when it is live -/
 theorem mtf_miss_iff (k : Key) (l : List (Key × Buf)) :
     extract k l = none ↔ k ∉ l.map Prod.fst := extract_none_iff k l
+
+/-- `get` is total for `N ≥ 1`, keeps keys and buffers distinct and the capacity unchanged, puts the
+    requested key in front with the returned buffer, returns the key's own buffer on a hit and a
+    buffer no other live key owns on a miss -/
+theorem mtf_get_sound (m : MTF Key Buf) (k : Key) (hw : WF m) (hc : 0 < m.cap) :
+    ∃ m' b g, m.get k = some (m', (b, g)) ∧ WF m' ∧ m'.cap = m.cap
+      ∧ (∃ rest, m'.ents = (k, b) :: rest)
+      ∧ (g = true → (k, b) ∈ m.ents)
+      ∧ (g = false → k ∉ m.ents.map Prod.fst)
+      ∧ (∀ k' b', (k', b') ∈ m'.ents → k' ≠ k → (k', b') ∈ m.ents ∧ b' ≠ b) := by
+  obtain ⟨m', b, g, hget, hs⟩ := get_spec m k hc
+  refine ⟨m', b, g, hget, hs.wf hw, hs.cap, hs.head, ?_, ?_, ?_⟩
+  · intro hg; subst hg; exact hs.hit_mem
+  · intro hg; subst hg; exact hs.miss_fresh
+  · intro k' b' hm hne
+    refine ⟨hs.old k' b' hm hne, ?_⟩
+    intro hb; subst hb
+    obtain ⟨rest, hh⟩ := hs.head
+    exact hne ((hs.wf hw).key_of_buf hm (by rw [hh]; exact List.mem_cons_self ..))
+
+/-- with at least two buffers the entry used last survives the next `get` (the two references
+    `a`, `b` taken by `AdjEnvelope::q_xx` never alias different keys) -/
+theorem mtf_keeps_most_recent (m : MTF Key Buf) (k k0 : Key) (b0 : Buf) (rest : List (Key × Buf))
+    (hc : 2 ≤ m.cap) (hh : m.ents = (k0, b0) :: rest) (hne : k0 ≠ k) :
+    ∃ m' r, m.get k = some (m', r) ∧ (k0, b0) ∈ m'.ents := by
+  obtain ⟨m', b, g, hget, hs⟩ := get_spec m k (by omega)
+  exact ⟨m', (b, g), hget, hs.keeps_front hh hne hc⟩
+
+example : (MTF.init [0, 1, 2] : MTF Int Nat).WF ∧ 2 ≤ (MTF.init [0, 1, 2] : MTF Int Nat).cap :=
+  ⟨wf_init _ (by decide), by decide⟩
+
+/-! ### `AdjEnvelope` -/
+
+/-- **History freedom.**  After any finite sequence of API calls (queries, `min_x()`, `min_x(list)`,
+    `reset(same input)`) every query is answered exactly as a brand-new object configured with the
+    current regularisation list would answer it: in particular every cached buffer that is read
+    holds what a fresh computation would put there. -/
+theorem envelope_history_free (inp : EnvInput) (hp : inp.Pos) (m0 : Option (List Nat))
+    (ops : List Op) (hops : ∀ o ∈ ops, o.Valid) (op : Op) (hop : op.Valid) :
+    (step inp (run inp (init m0) ops) op).2 = fresh inp (run inp (init m0) ops).minx op :=
+  step_eq_fresh (run_inv hp (inv_init inp m0) hops) hp op hop
+
+/-- the invariant that makes it work holds in every reachable state -/
+theorem envelope_invariant (inp : EnvInput) (hp : inp.Pos) (m0 : Option (List Nat))
+    (ops : List Op) (hops : ∀ o ∈ ops, o.Valid) : Inv inp (run inp (init m0) ops) :=
+  run_inv hp (inv_init inp m0) hops
+
+/-- **One value per question.**  The answer is a function of the input and of the effective
+    regularisation list alone (`spec`), whatever was asked before. -/
+theorem envelope_answer_is_spec (inp : EnvInput) (hp : inp.Pos) (m0 : Option (List Nat))
+    (ops : List Op) (hops : ∀ o ∈ ops, o.Valid) (op : Op) (hop : op.Valid) :
+    (step inp (run inp (init m0) ops) op).2 = spec inp (eff inp (run inp (init m0) ops).minx) op :=
+  (step_spec (run_inv hp (inv_init inp m0) hops) hp op hop).2
+
+/-- **Idempotence.**  Asking the same question again gives the same answer. -/
+theorem envelope_idempotent (inp : EnvInput) (hp : inp.Pos) (m0 : Option (List Nat))
+    (ops : List Op) (hops : ∀ o ∈ ops, o.Valid) (q : Op) (hq : q.Valid) (hquery : q.IsQuery) :
+    let s := run inp (init m0) ops
+    (step inp (step inp s q).1 q).2 = (step inp s q).2 :=
+  step_twice (run_inv hp (inv_init inp m0) hops) hp q hq hquery
+
+/-- **Reset with the same input.**  `reset` changes no answer. -/
+theorem envelope_reset_same_input (inp : EnvInput) (hp : inp.Pos) (m0 : Option (List Nat))
+    (ops : List Op) (hops : ∀ o ∈ ops, o.Valid) (q : Op) (hq : q.Valid) :
+    let s := run inp (init m0) ops
+    (step inp (step inp s .reset).1 q).2 = (step inp s q).2 :=
+  step_after_reset (run_inv hp (inv_init inp m0) hops) hp q hq
+
+/-- non-vacuity: a singular input with a narrow envelope, a history that fills the three buffers,
+    changes the regularisation and resets; the final `q_xx` is the fresh one -/
+example :
+    let inp : EnvInput := { n := 5, nullity := 1, invp := fun i => 6 - i,
+                            inEnv := fun i j => (max i j) - (min i j) ≤ 1,
+                            resolves := fun l => l ≠ [], qbbIn := fun i j => i == j }
+    let ops := [Op.qxx 1 5, .q0xx 1 4, .qxx 2 3, .qxx 4 4, .minx [1, 2], .qxx 1 5, .unknowns,
+                .reset, .q0xx 5 1, .qbb 1 2, .minxAll]
+    (step inp (run inp (init none) ops) (.qxx 1 5)).2
+      = .qxxSing (.trow 1 [1, 2, 3, 4, 5]) (.trow 5 [1, 2, 3, 4, 5]) := by decide
 
 end Gama.Props.C04
